@@ -265,3 +265,6 @@ def run(chk, args):
     if only is None or "servermain" in only:
         from checks import c05_servermain
         c05_servermain.run_servermain_part(chk, args)
+
+
+MANIFEST["note"] += ' Extension parts run with the check: Listener (spec/Listener: Transport.Listen/Accept/Close life cycle, --only listener) and ServerMain (spec/ServerMain: accept loop, handler, copy loops, stats thread and shutdown of the server binary, incl. the real main() in a child process, --only servermain).'
